@@ -26,6 +26,13 @@ using namespace sim;
 namespace sim { void register_all_properties(); void sched_end_of_run(uint64_t* sched_hash); bool sched_poisoned(); }
 #define EXIT_RESTART 80
 
+#ifdef SIM_COV
+extern "C" void __gcov_dump(void);      // tools/coverage.sh build only
+#define GCOV_DUMP() __gcov_dump()
+#else
+#define GCOV_DUMP() ((void)0)
+#endif
+
 static std::string g_rundir = "/verif/.run";
 static std::string g_verif = "/verif";
 
@@ -238,6 +245,7 @@ static ChildResult run_child(const ChildSpec& cs) {
         for (auto& e : r.events) o << "EV " << e << "\n";
         o << "END\n";
         write_all(pfd[1], o.str());
+        GCOV_DUMP();
         _exit(0);
     }
     close(pfd[1]);
@@ -447,8 +455,9 @@ static void worker_main(const Property* P, int w, uint64_t seed, bool thorough) 
             if (!k && SH->violations >= 24) __atomic_store_n(&SH->stop, 1, __ATOMIC_RELAXED);
         }
         __atomic_store_n(&SH->cur_index[w], ~0ull, __ATOMIC_RELAXED);
-        if (sched_poisoned()) _exit(EXIT_RESTART);     // a run ended with tasks in flight: continue in a fresh process
+        if (sched_poisoned()) { GCOV_DUMP(); _exit(EXIT_RESTART); }     // a run ended with tasks in flight: continue in a fresh process
     }
+    GCOV_DUMP();
     _exit(0);
 }
 
@@ -692,7 +701,10 @@ int main(int argc, char** argv) {
         // samples: the first three plans, re-executed in children with text kept
         std::vector<ChildResult> samples;
         for (uint64_t i = 0; i < 3 && i < runs; i++) { ChildSpec cs{P, seed, i, thorough}; cs.keep_text = true; samples.push_back(run_child(cs)); }
-        std::ofstream o(g_verif + "/evidence/" + P->id + ".json");
+        const char* ed = getenv("VERIF_EVIDENCE_DIR");      // tools/coverage.sh keeps its bounded runs out of /verif/evidence
+        std::string edir = ed && *ed ? std::string(ed) : g_verif + "/evidence";
+        mkdir(edir.c_str(), 0755);
+        std::ofstream o(edir + "/" + P->id + ".json");
         uint64_t dn = SH->distinct_nontrivial;
         o << "{\n \"property_id\": \"" << P->id << "\",\n \"tier\": \"" << (thorough ? "thorough" : "quick") << "\",\n \"seed\": " << seed
           << ",\n \"level\": \"" << P->level << "\",\n \"wall_s\": " << wall << ",\n \"violations\": " << (uint64_t)viol_lines.size()
